@@ -1576,3 +1576,24 @@ func followReturns(call *ssa.Call, idx int, visit func(ssa.Value)) bool {
 	}
 	return any
 }
+
+// spawnedFn: the function a go / defer statement runs — a closure, or a named
+// function or method of the module (a bound method value counts as its method).
+func spawnedFn(cc *ssa.CallCommon) *ssa.Function {
+	var f *ssa.Function
+	switch v := cc.Value.(type) {
+	case *ssa.MakeClosure:
+		f, _ = v.Fn.(*ssa.Function)
+	case *ssa.Function:
+		f = v
+	}
+	if f != nil && f.Synthetic != "" && len(f.Blocks) > 0 {
+		// bound-method wrapper: the method it calls
+		for _, ci := range callInstrs(f) {
+			if _, callee := calleeOf(ci); callee != nil && inModule(callee) {
+				return callee
+			}
+		}
+	}
+	return f
+}
